@@ -19,7 +19,8 @@ Qed.
 Theorem C12_from_trace_bounds_every_window : forall ts k, sorted ts -> wf_dmin (curve_from_trace (trace_N ts) k) ->
   forall t d : nat, N.of_nat (count ts t d) <= curve_na (curve_from_trace (trace_N ts) k) (N.of_nat d).
 Proof. exact from_trace_bounds_trace. Qed.
-(* known finding C12-zero-last: k + 1 simultaneous events (or a bursty source) give a vector ending in 0 *)
+(* known finding C12-zero-last (from_trace only; from_arrival_bound is repaired, see below): k + 1 simultaneous events
+   give a vector ending in 0 *)
 Theorem C12_from_trace_zero_last_refuted : exists ts k, sorted ts /\ (2 <= length ts)%nat /\ ~ wf_dmin (curve_from_trace (trace_N ts) k).
 Proof. exact from_trace_zero_last_refuted. Qed.
 
@@ -49,7 +50,23 @@ Theorem C12_from_periodic : forall T, 1 <= T -> forall delta, na (Periodic T) de
 Proof. exact curve_of_periodic_exact. Qed.
 (* known finding C12-plateau-at-last: exactness at delta = last entry fails for plateau-ended vectors *)
 Definition C12_plateau_at_last_refuted := exact_plateau_refuted.
-Definition C12_from_arrival_bound_zero_last_refuted := curve_from_ab_zero_last_refuted.
+(* repaired finding C12-zero-last (from_arrival_bound): the conversions keep going until a non-zero distance is
+   included.  Whenever the horizon-doubling loop of the model finds a cut of the delta-min iterator inside which the
+   take_while stops ([njobs_enough] / [until_enough], j-th doubling), the result is a well-formed delta-min vector
+   (non-empty, non-decreasing, last entry positive) -- for every burst size of the source *)
+Theorem C12_from_arrival_bound_usable : forall ab n j, wf_ab ab -> steps_exact_class ab -> is_never ab = false -> (j < 64)%nat ->
+  njobs_enough n (dmins_upto ab (N.max 4 1 * 2 ^ N.of_nat j)) = true -> wf_dmin (curve_from_ab ab n).
+Proof. exact curve_from_ab_wf. Qed.
+Theorem C12_from_arrival_bound_until_usable : forall ab hz j, wf_ab ab -> steps_exact_class ab -> is_never ab = false -> (j < 64)%nat ->
+  until_enough hz (dmins_upto ab (N.max (hz + 2) 1 * 2 ^ N.of_nat j)) = true -> wf_dmin (curve_from_ab_until ab hz).
+Proof. exact curve_from_ab_until_wf. Qed.
+(* regression: the former witness (three simultaneous events: Sporadic period 3 jitter 7) *)
+Theorem C12_from_arrival_bound_zero_last_repaired : wf_dmin (curve_from_ab (Sporadic 3 7) 3) /\
+  forall delta, delta <= 40 -> na (Sporadic 3 7) delta <= curve_na (curve_from_ab (Sporadic 3 7) 3) delta.
+Proof. exact curve_from_ab_zero_last_repaired. Qed.
+Theorem C12_from_arrival_bound_until_zero_last_repaired : wf_dmin (curve_from_ab_until (Sporadic 3 7) 0) /\
+  forall delta, delta <= 40 -> na (Sporadic 3 7) delta <= curve_na (curve_from_ab_until (Sporadic 3 7) 0) delta.
+Proof. exact curve_from_ab_until_zero_last_repaired. Qed.
 
 (* --- ArrivalCurvePrefix recorded from a source --- *)
 Theorem C12_prefix_exact_within_horizon : forall ab hz h s, wf_ab ab -> steps_exact_class ab -> 1 <= hz -> 0 < na ab 1 ->
@@ -62,4 +79,7 @@ Proof. exact prefix_from_dominates. Qed.
 
 Example C12_example : curve_from_trace (trace_N [0; 4; 4; 9; 20]%nat) 3 = [0; 4; 9] /\
   curve_from_ab_until (Sporadic 10 3) 25 = [7; 17] /\ map (na (Sporadic 10 3)) [7; 8; 17; 18] = [1; 2; 2; 3].
+Proof. repeat split; vm_compute; reflexivity. Qed.
+Example C12_example_repaired : curve_from_ab (Sporadic 3 7) 3 = [0; 0; 2] /\ curve_from_ab_until (Sporadic 3 7) 0 = [0; 0; 2] /\
+  curve_from_ab (Sporadic 5 10) 2 = [0; 0; 5] /\ map (na (Sporadic 3 7)) [1; 2; 3] = [3; 3; 4].
 Proof. repeat split; vm_compute; reflexivity. Qed.
